@@ -79,6 +79,7 @@ static int nfail;
 static int spurious_deadlock_rescues;
 static uint64_t nwrites, writes_at_rescue = (uint64_t)-1;
 static int log_all;
+static int autoname_units; /* name work units T<n> at their creation event, drop the name at free */
 
 #define LOCK() __real_pthread_mutex_lock(&G)
 #define UNLOCK() __real_pthread_mutex_unlock(&G)
@@ -357,7 +358,7 @@ static int block(vthread *self, int kind, const void *obj, int has_deadline, dou
     self->has_deadline = has_deadline;
     self->deadline = deadline;
     self->timedout = 0;
-    if (mode_pct && (kind == BK_SPIN || kind == BK_IDLE))
+    if (mode_pct && (kind == BK_SPIN || kind == BK_IDLE || kind == BK_SLEEP))
         self->prio = pct_low--;
     if (logf && kind != BK_SPIN && kind != BK_IDLE) {
         char b[64];
@@ -381,6 +382,7 @@ static void wake_all(int kind, const void *obj)
             wake(&T[i]);
 }
 
+static int woke_ids[MAXT]; /* threads woken by the last wake_some (log only) */
 static int wake_some(int kind, const void *obj, int n)
 {
     int c[MAXT], k = 0, w = 0;
@@ -390,6 +392,7 @@ static int wake_some(int kind, const void *obj, int n)
     while (k > 0 && w < n) {
         int j = xs(&rng_s) % k;
         wake(&T[c[j]]);
+        woke_ids[w] = c[j];
         c[j] = c[--k];
         w++;
     }
@@ -398,6 +401,7 @@ static int wake_some(int kind, const void *obj, int n)
 
 /* ------------------------------------------------------------------- API */
 void vs_set_unit_fn(const void *(*fn)(void)) { unit_fn = fn; }
+void vs_autoname_units(int on) { autoname_units = on; }
 double vs_now(void) { return vclock; }
 uint64_t vs_rand(void) { return xs(&rng_u); }
 uint64_t vs_steps(void) { return steps; }
@@ -606,6 +610,10 @@ void abt_verif_event(int kind, const void *p1, const void *p2, long v)
     if (!on || !me)
         return;
     vthread *self = me;
+    if (autoname_units && logf && (kind == 1 || kind == 4) && !lookup(p1)) {
+        static int tn;
+        vs_name(p1, 128, "T%d", tn++);
+    }
     if (kind == 50 && logf) {
         /* wait-list node on a waiter's stack (external thread / timed wait): name it while it is queued.
          * Stale names of earlier nodes that overlap the new one (stack reuse) are dropped first. */
@@ -628,6 +636,11 @@ void abt_verif_event(int kind, const void *p1, const void *p2, long v)
     self->lg_addr = NULL;
     char n1[64], n2[64], u[64];
     fprintf(logf, "E %d %s %d %s %s %ld\n", self->id, unit_name(u, sizeof u), kind, vs_addr_name(p1, n1, sizeof n1), vs_addr_name(p2, n2, sizeof n2), v);
+    if (kind == 3 && autoname_units) { /* freed: the descriptor will be reused by another unit */
+        nm *e = lookup(p1);
+        if (e && e->name[0] == 'T' && e->base == (const char *)p1)
+            vs_unname(e->base);
+    }
     if (kind == 51) { /* timed-out node leaves the list: its stack slot will be reused */
         nm *e = lookup(p2);
         if (e && e->name[0] == 'W')
@@ -730,12 +743,22 @@ int __wrap_pthread_join(pthread_t th, void **ret)
     return __real_pthread_join(th, ret);
 }
 
+/* log-only lines for the virtual pthread objects that live inside a *named* object (no schedule point):
+ *   M <tid> lock|unlock <obj>      R <tid> condwait <obj> dl=<abs|inf>      R <tid> condret <obj> to=<0|1>
+ *   W <tid> cond <obj> n=<k> woke=<tid,...> */
+static void plog(char tag, const char *what, const void *o, const char *extra)
+{
+    char b[64];
+    if (logf && me && lookup(o))
+        fprintf(logf, "%c %d %s %s%s\n", tag, me->id, what, vs_addr_name(o, b, sizeof b), extra);
+}
 static void vmutex_lock(vthread *self, pthread_mutex_t *m)
 {
     for (;;) {
         vobj *o = obj(m);
         if (o->owner < 0) {
             o->owner = self->id;
+            plog('M', "lock", m, "");
             return;
         }
         block(self, BK_MUTEX, m, 0, 0);
@@ -745,6 +768,7 @@ static void vmutex_unlock(pthread_mutex_t *m)
 {
     vobj *o = obj(m);
     o->owner = -1;
+    plog('M', "unlock", m, "");
     LOCK();
     wake_all(BK_MUTEX, m);
     UNLOCK();
@@ -766,6 +790,7 @@ int __wrap_pthread_mutex_trylock(pthread_mutex_t *m)
     vobj *o = obj(m);
     if (o->owner < 0) {
         o->owner = me->id;
+        plog('M', "lock", m, "");
         return 0;
     }
     return EBUSY;
@@ -782,8 +807,10 @@ int __wrap_pthread_cond_wait(pthread_cond_t *c, pthread_mutex_t *m)
 {
     if (!on || !me)
         return __real_pthread_cond_wait(c, m);
+    plog('R', "condwait", c, " dl=inf");
     vmutex_unlock(m);
     block(me, BK_COND, c, 0, 0);
+    plog('R', "condret", c, " to=0");
     vmutex_lock(me, m);
     return 0;
 }
@@ -792,12 +819,16 @@ int __wrap_pthread_cond_timedwait(pthread_cond_t *c, pthread_mutex_t *m, const s
     if (!on || !me)
         return __real_pthread_cond_timedwait(c, m, abst);
     double dl = (double)abst->tv_sec + 1e-9 * (double)abst->tv_nsec;
+    char dlb[48];
+    snprintf(dlb, sizeof dlb, " dl=%.9f", dl);
+    plog('R', "condwait", c, dlb);
     vmutex_unlock(m);
     int to = 0;
     if (dl <= vclock)
         to = 1, point(me);
     else
         to = block(me, BK_COND, c, 1, dl);
+    plog('R', "condret", c, to ? " to=1" : " to=0");
     vmutex_lock(me, m);
     return to ? ETIMEDOUT : 0;
 }
@@ -807,7 +838,10 @@ int __wrap_pthread_cond_signal(pthread_cond_t *c)
         return __real_pthread_cond_signal(c);
     point(me);
     LOCK();
-    wake_some(BK_COND, c, 1);
+    int w = wake_some(BK_COND, c, 1);
+    char wb[48];
+    snprintf(wb, sizeof wb, w ? " n=1 woke=%d" : " n=0 woke=", woke_ids[0]);
+    plog('W', "cond", c, wb);
     UNLOCK();
     return 0;
 }
@@ -817,6 +851,18 @@ int __wrap_pthread_cond_broadcast(pthread_cond_t *c)
         return __real_pthread_cond_broadcast(c);
     point(me);
     LOCK();
+    {
+        char wb[400];
+        int n = 0, k = 0;
+        for (int i = 0; i < nthreads; i++)
+            if (T[i].st == ST_BLOCKED && T[i].bkind == BK_COND && T[i].bobj == (const void *)c)
+                n++;
+        k = snprintf(wb, sizeof wb, " n=%d woke=", n);
+        for (int i = 0; i < nthreads && k < (int)sizeof wb - 8; i++)
+            if (T[i].st == ST_BLOCKED && T[i].bkind == BK_COND && T[i].bobj == (const void *)c)
+                k += snprintf(wb + k, sizeof wb - k, "%d,", i);
+        plog('W', "cond", c, wb);
+    }
     wake_all(BK_COND, c);
     UNLOCK();
     return 0;
